@@ -5,28 +5,48 @@ _c08_floors = {"distinct": 50000, "exhaustive_cases": 1044, "exhaustive_cases_co
                      "rel:same-id-pairs-share-one-address-same-role": 500, "rel:same-id-pairs-share-one-address-opposite-role": 500, "rel:same-id-disjoint-pairs": 100, "rel:same-pair-different-id": 500, "rel:same-id-reversed-pair": 500,
                      "shape:all-8-byte-fragments": 500, "shape:huge-plus-tiny": 500, "shape:9-64-fragments": 1000, "shape:more-than-64-fragments": 10, "shape:options-first-fragment-differs": 500,
                      "shape:ttl-differs-between-fragments": 5000, "shape:total-length-near-65535": 50, "shape:key-reused-after-completion": 1000, "shape:unfragmented-with-DF": 1000,
-                     "proto:UDP": 1000, "proto:TCP": 1000, "proto:ICMP": 1000, "proto:other": 1000, "link:raw": 1000, "link:eth": 1000, "link:vlan": 1000, "link:sll": 1000}
+                     "proto:UDP": 1000, "proto:TCP": 1000, "proto:ICMP": 1000, "proto:other": 1000, "link:raw": 1000, "link:eth": 1000, "link:vlan": 1000, "link:sll": 1000, "link:qinq": 1000, "link:loopback": 1000, "link:api": 1000,
+                     "shape:fragment-frame-padded-to-60": 100000, "shape:last-fragment-frame-padded-to-60": 100000, "shape:fragment-frame-with-trailing-bytes": 100000,
+                     "exhaustive_op_cases_completed": 28, "exhaustive_op_sequences": 323400, "histories:with-management-operations": 50000, "histories:through-proxy": 5000,
+                     "op:remove_stream": 100000, "op:remove_stream:self": 30000, "op:remove_stream:self/others-pending": 15000, "op:remove_stream:mirrored": 15000, "op:remove_stream:other": 50000, "op:remove_stream:nothing-pending": 20000,
+                     "op:clear_streams": 40000, "op:clear_streams/something-pending": 15000, "op:clear_streams/several-pending": 5000, "ctor:technique": 50000, "ctor:default": 30000,
+                     "checks:status-after-management-operation": 1000000, "completed-after-self-remove": 20000, "completed-after-clear_streams": 15000, "completed-after-mirrored-remove": 10000,
+                     "completed-after-unrelated-remove": 40000, "ev:completion-prevented-by-operation": 40000, "ev:fragment-restarts-datagram-after-remove_stream": 25000,
+                     "ev:fragment-restarts-datagram-after-clear_streams": 20000, "ev:fragment-of-datagram-that-survived-a-remove": 200000, "shape:retransmission-after-operation": 10000,
+                     "proxy:forwarded": 20000, "proxy:held-back": 100000}
 PROPS["C08"] = dict(
     level="exploration",
-    technique="history + executable reference reassembler (coverage bitmap per (id,src,dst), forgets on completion) checked after every packet, under ASan/UBSan; "
+    technique="history + executable reference reassembler (coverage bitmap per (id,src,dst), forgets on completion, on remove_stream of that triple and on clear_streams) checked after every packet, under ASan/UBSan; "
               "exhaustive small scopes + random large histories; packets built by an independent IPv4/UDP/TCP/ICMP encoder",
-    level_text="The real IPv4Reassembler::process is fed frames that libtins itself parsed (raw IP, EthernetII, Dot1Q, SLL) from datagrams produced by the monitor's own encoder "
+    level_text="The real IPv4Reassembler::process is fed frames that libtins itself parsed (raw IP, EthernetII padded to 60, 802.1Q, 802.1ad+802.1Q, SLL, Loopback roots, optionally with trailing bytes "
+               "after the IP datagram) or fragments built as IP objects through the API, from datagrams produced by the monitor's own encoder "
                "(own checksum arithmetic): 2..64 fragments (occasionally up to 1500 / 8189 8-byte fragments), payload up to 65515, IP options (first fragment carries more than the others), "
                "per-fragment TTL, k<=8 concurrent datagrams sharing ids and addresses selectively, duplicates before and after completion, complete retransmissions, key re-use after completion, "
                "unfragmented (also DF) and non-IP packets in between. The status of EVERY step is compared with a reference reassembler; every REASSEMBLED packet is compared field by field and "
                "byte by byte (payload, whole serialization, sizes) with the original datagram; every NOT_FRAGMENTED packet must serialize to the same bytes as before (and as on the wire). "
                "Exhaustive: payloads of 2..5 (thorough: 2..6) eight-byte units (16..48 bytes, also with a short tail) x every partition x every arrival order x (no | one | two duplicates) x 4 protocols x 4 link layers, "
-               "and every interleaving (with one duplicate) of two 2..3-fragment datagrams in 7 id/address relations.",
+               "and every interleaving (with one duplicate) of two 2..3-fragment datagrams in 7 id/address relations. "
+               "Every public entry point is driven: both constructors (default / OverlappingTechnique, must behave identically), process(), remove_stream(id, src, dst), clear_streams(), and "
+               "IPv4ReassemblerProxy::operator() via make_ipv4_reassembler_proxy (held back <=> FRAGMENTED, return value as documented). 2/5 of the random histories contain management operations between "
+               "the packets: remove_stream of a pending datagram (its later fragments start from nothing: it completes only from a whole new set, which is often retransmitted), of the mirrored "
+               "(id, dst, src) triple, of another id / another address / an unrelated triple, and clear_streams(); the reference forgets exactly the documented triple / everything and keeps predicting "
+               "the status of every later packet, so an operation that forgets too much (a survivor's completing fragment comes back FRAGMENTED) or too little (a datagram is produced from an "
+               "incomplete new set) is a status mismatch. Exhaustive operations slice: two 2..3-fragment datagrams in the 7 relations x every interleaving x 7 operations x every position, followed by a "
+               "complete retransmission when something was forgotten or left pending; every second sequence re-uses one reassembler after clear_streams().",
     level_note="Trusted: the ~25-line reference reassembler and the encoder in harness/c08.cpp. Upper layers are well-formed (libtins re-serializes them identically); fragments never carry DF; "
-               "no overlapping fragments; two datagrams never use the same (id, src, dst) at the same time. Key = (id, ordered (src,dst)) as in RFC 791 (without the protocol, as the statement says).",
+               "no overlapping fragments; two datagrams never use the same (id, src, dst) at the same time. Key = (id, ordered (src,dst)) as in RFC 791 (without the protocol, as the statement says). "
+               "remove_stream / clear_streams have no directly observable result: their effect is asserted only through the statuses and contents of later packets (ip_reassembler.h: addr1 = source, addr2 = destination of the "
+               "IP headers whose data is removed). The technique_ member is never read by libtins, so a constructor that leaves it uninitialised cannot be observed. API-built fragments carry no IP options.",
     phases=[dict(name="exhaustive", harness="c08.cpp", flavor="asan", mode="exhaustive", cases=dict(quick=1044, thorough=2068), args=dict(reversed=1)),
             dict(name="random", harness="c08.cpp", flavor="asan", mode="random", cases=dict(quick=300000, thorough=4000000), args=dict(reversed=1))],
     rule="case = (set of datagrams (id, src, dst, protocol, link layer, options, payload, partition at multiples of 8), arrival order with duplicates, interleaving, unfragmented/non-IP packets); "
          "distinct = distinct (datagram shapes, ordered event list); non-trivial = every history contains >=1 fragmented datagram and is checked after each packet; "
-         "exhaustive part: 16..40-byte payloads, all partitions x all orders x <=2 duplicates, and all interleavings of two small datagrams",
+         "exhaustive part: 16..40-byte payloads, all partitions x all orders x <=2 duplicates, all interleavings of two small datagrams, and those interleavings x one management operation at every position; "
+         "random histories additionally vary constructor, entry point (process / proxy) and the management operations and their positions",
     floors=dict(quick=_c08_floors, thorough=dict(_c08_floors, exhaustive_cases=2068, exhaustive_cases_completed=2068, exhaustive_sequences=4000000, distinct=1000000)),
     assumptions=["fragments of one datagram do not overlap and never carry DF; duplicates are exact copies",
                  "the reference forgets a datagram when it completes: later duplicates start a new accumulation, and a second complete set is reassembled again",
-                 "a (id, src, dst) triple is used by one datagram at a time (it may be re-used after completion once nothing stale is pending)",
+                 "a (id, src, dst) triple is used by one datagram at a time (it may be re-used after completion once nothing stale is pending; histories with operations call remove_stream of the triple before re-using it)",
+                 "remove_stream(id, a, b) concerns only the datagram with identification id going a->b; clear_streams() concerns every pending datagram; neither affects what is reported for unfragmented packets",
                  "datagrams A->B and B->A with the same identification are different datagrams (ordered address pair, RFC 791); histories containing that shape are tagged reversed-pair"],
 )
